@@ -125,21 +125,31 @@ def run(chk):
                                                       isinstance(p.func, ast.Name) and p.func.id == "len"):
                         continue
                 n_loads += 1
-                ok = False
-                why = ""
-                if isinstance(p, ast.Attribute) and p.value is val and p.attr == "copy" and isinstance(par.get(p), ast.Call):
-                    ok = True
-                elif isinstance(p, ast.Subscript) and p.value is val and isinstance(p.ctx, ast.Load) \
-                        and not isinstance(p.slice, ast.Slice):
-                    # scalar element read (logging, float(...)): element of a float array is immutable
-                    ok = True
-                elif isinstance(p, ast.Attribute) and p.value is val and p.attr in ("shape", "size", "dtype", "astype"):
-                    ok = True
-                if not ok:
+                def judge(val, depth=0):
+                    """(accepted, offending statement): .copy(), scalar element read, shape-like attribute - directly or through a
+                    local name bound once to the shared value whose every use is one of these"""
+                    p = par.get(val)
+                    if isinstance(p, ast.Attribute) and p.value is val and p.attr == "copy" and isinstance(par.get(p), ast.Call):
+                        return True, ""
+                    if isinstance(p, ast.Subscript) and p.value is val and isinstance(p.ctx, ast.Load) and not isinstance(p.slice, ast.Slice):
+                        return True, ""      # scalar element read (logging, float(...)): element of a float array is immutable
+                    if isinstance(p, ast.Attribute) and p.value is val and p.attr in ("shape", "size", "dtype", "astype"):
+                        return True, ""
+                    if isinstance(p, ast.Assign) and p.value is val and len(p.targets) == 1 and isinstance(p.targets[0], ast.Name) and depth < 3:
+                        nm = p.targets[0].id
+                        stores = [x for x in ast.walk(f.node) if isinstance(x, ast.Name) and x.id == nm and isinstance(x.ctx, (ast.Store, ast.Del))]
+                        if len(stores) == 1 and nm not in f.params:
+                            for u in (x for x in ast.walk(f.node) if isinstance(x, ast.Name) and x.id == nm and isinstance(x.ctx, ast.Load)):
+                                r = judge(u, depth + 1)
+                                if not r[0]:
+                                    return r
+                            return True, ""
                     stm = p
                     while stm is not None and not isinstance(stm, ast.stmt):
                         stm = par.get(stm)
-                    why = stmt_text(stm) if stm is not None else ""
+                    return False, stmt_text(stm) if stm is not None else ""
+
+                ok, why = judge(val)
                 chk.decide(ok, "copy-on-read", f.qname,
                            f"`{ast.unparse(val)}` (shared state) escapes un-copied in `{why}`: a caller or an in-place update "
                            f"can now change the reference/cached values seen by later queries",
